@@ -117,7 +117,7 @@ def run(tier):
             batch.append(b.decode("utf8", "replace"))
         if len(batch) >= 400:
             scen.append({"meta": {"mode": "total", "exp": {}}, "texts": batch}); batch = []
-    for _ in range(2000 if quick else 40000):
+    for _ in range(2000 if quick else 150000):
         batch.append(" ".join(rng.choice(TOKENS) for _ in range(rng.choice([5, 9, 20, 40]))))
         if len(batch) == 400:
             scen.append({"meta": {"mode": "total", "exp": {}}, "texts": batch}); batch = []
